@@ -113,7 +113,7 @@ impl ProofOfSignatureKnowledge for PokSignatureProof {
         let mut scalars = Vec::new();
 
         for (idx, msg) in revealed_messages {
-            if *idx > public_key.y.len() {
+            if *idx >= public_key.y.len() {
                 return Err(Error::General("Invalid proof - revealed message index"));
             }
             points.push(public_key.y[*idx]);
